@@ -101,6 +101,19 @@ class Ctx:
         if len(self.disagreements) < 200:
             self.disagreements.append({'op': line, 'impl': impl_out, 'model': model_out, 'input': desc})
 
+    def guarded(self, fn, desc: dict) -> None:
+        """Run one case; an exception while handling what the implementation returned means
+        the implementation no longer behaves as the model expects: a broken correspondence
+        (never an infrastructure error, never silently skipped)."""
+        try:
+            fn()
+        except lean.LeanError:
+            raise
+        except Exception as e:  # noqa: BLE001
+            tb = traceback.format_exc(limit=4)
+            self.evaluations += 1
+            self.disagree('harness-case', f'EXC {type(e).__name__}: {e}', 'case handled without exception', {**desc, 'traceback': tb})
+
     # -- direct property oracle --------------------------------------------
     def oracle_fail(self, signature: str, desc: dict, message: str) -> None:
         """The property itself fails on the real code for this input."""
